@@ -202,3 +202,102 @@ package pubsub
 //@   ensures accepted: nAccept() == 1 && lastret(PubSubRouter.AcceptFrom) == AcceptAll ==> nHandle() == 1 && lastarg(PubSubRouter.HandleRPC, 1) == rpc
 //@   ensures vetted-peer: nAccept() == 1 ==> lastarg(PubSubRouter.AcceptFrom, 1) == old(rpc.from)
 //@   ensures no-accept-no-processing: nAccept() == 0 ==> nPush() == 0 && nShould() == 0 && nHandle() == 0
+
+// ---- the event loop: one event per iteration (per-iteration postconditions) ----
+//
+// `loop 1 step` clauses are checked at every back edge of the select loop; iter(e) is e at the
+// start of the iteration, received(ch)/lastrecv(ch) count and remember receives from channel ch.
+// Dispatch: every request received on a channel reaches its handler exactly once, in the same
+// iteration, and handlers run for no other reason. BlacklistPeer: the peer is blacklisted and,
+// if it had an outbound queue, that queue is closed, the peer leaves p.peers, its topic state is
+// cleared and the router is told - whatever Blacklist.Add returned.
+//@ func (*PubSub).processLoop
+//@   property C05 C13 C16
+//@   noframe
+//@   loop 1 assume event-loop-invariant: invSub(p) && topicsRep(p) && p.peers != nil
+//@   at call handleAddSubscription assume request-from-Subscribe: $arg1 != nil && $arg1.sub != nil && $arg1.sub.topic in p.myTopics && p.myTopics[$arg1.sub.topic] != nil && !has(p.mySubs, $arg1.sub.topic, $arg1.sub)
+//@   at call handleRemoveSubscription assume request-from-Cancel: $arg1 != nil
+//@   at call handleAddRelay assume request-from-Relay: $arg1 != nil && !fanoutOnlyT(p, $arg1.topic)
+//@   at call handleIncomingRPC assume decoded-by-reader: $arg1 != nil && (forall i int :: 0 <= i && i < len($arg1.RPC.Publish) ==> $arg1.RPC.Publish[i] != nil)
+//@   at call publishMessage assume validated-message: $arg1 != nil
+//@   loop 1 step add-sub-dispatched: calls((*PubSub).handleAddSubscription) - iter(calls((*PubSub).handleAddSubscription)) == received(p.addSub) - iter(received(p.addSub)) &&
+//@        (received(p.addSub) > iter(received(p.addSub)) ==> lastarg((*PubSub).handleAddSubscription, 1) == lastrecv(p.addSub))
+//@   loop 1 step cancel-dispatched: calls((*PubSub).handleRemoveSubscription) - iter(calls((*PubSub).handleRemoveSubscription)) == received(p.cancelCh) - iter(received(p.cancelCh)) &&
+//@        (received(p.cancelCh) > iter(received(p.cancelCh)) ==> lastarg((*PubSub).handleRemoveSubscription, 1) == lastrecv(p.cancelCh))
+//@   loop 1 step add-relay-dispatched: calls((*PubSub).handleAddRelay) - iter(calls((*PubSub).handleAddRelay)) == received(p.addRelay) - iter(received(p.addRelay)) &&
+//@        (received(p.addRelay) > iter(received(p.addRelay)) ==> lastarg((*PubSub).handleAddRelay, 1) == lastrecv(p.addRelay))
+//@   loop 1 step rm-relay-dispatched: calls((*PubSub).handleRemoveRelay) - iter(calls((*PubSub).handleRemoveRelay)) == received(p.rmRelay) - iter(received(p.rmRelay)) &&
+//@        (received(p.rmRelay) > iter(received(p.rmRelay)) ==> lastarg((*PubSub).handleRemoveRelay, 1) == lastrecv(p.rmRelay))
+//@   loop 1 step dead-peers-handled: calls((*PubSub).handleDeadPeers) - iter(calls((*PubSub).handleDeadPeers)) == received(p.peerDead) - iter(received(p.peerDead))
+//@   loop 1 step new-peers-handled: calls((*PubSub).handlePendingPeers) - iter(calls((*PubSub).handlePendingPeers)) == received(p.newPeers) - iter(received(p.newPeers))
+//@   loop 1 step blacklist-evicts: forall q string :: received(p.blacklistPeer) > iter(received(p.blacklistPeer)) && q == lastrecv(p.blacklistPeer) ==>
+//@        !(q in p.peers) && blk[q] && calls(Blacklist.Add) == iter(calls(Blacklist.Add)) + 1 &&
+//@        (iter(q in p.peers) ==> calls((*rpcQueue).Close) == iter(calls((*rpcQueue).Close)) + 1 && lastarg((*rpcQueue).Close, 0) == iter(p.peers[q]) &&
+//@            calls((*PubSub).clearPeerFromTopicsState) == iter(calls((*PubSub).clearPeerFromTopicsState)) + 1 && lastarg((*PubSub).clearPeerFromTopicsState, 1) == q &&
+//@            calls(PubSubRouter.OnClosedOutboundStream) == iter(calls(PubSubRouter.OnClosedOutboundStream)) + 1 && lastarg(PubSubRouter.OnClosedOutboundStream, 1) == q)
+//@   loop 1 step rpc-dispatched: calls((*PubSub).handleIncomingRPC) - iter(calls((*PubSub).handleIncomingRPC)) ==
+//@        ite(received(p.incoming) > iter(received(p.incoming)) && lastrecv(p.incoming).kind == incomingKindRPC, 1, 0) &&
+//@        (calls((*PubSub).handleIncomingRPC) > iter(calls((*PubSub).handleIncomingRPC)) ==> lastarg((*PubSub).handleIncomingRPC, 1) == lastrecv(p.incoming).rpc)
+//@   loop 1 step closed-inbound-cleared: calls((*PubSub).onClosedIncomingStream) - iter(calls((*PubSub).onClosedIncomingStream)) ==
+//@        ite(received(p.incoming) > iter(received(p.incoming)) && lastrecv(p.incoming).kind == incomingKindClosedStream, 1, 0)
+//@   loop 1 step publish-dispatched: calls((*PubSub).publishMessage) - iter(calls((*PubSub).publishMessage)) == received(p.sendMsg) - iter(received(p.sendMsg)) &&
+//@        (received(p.sendMsg) > iter(received(p.sendMsg)) ==> lastarg((*PubSub).publishMessage, 1) == lastrecv(p.sendMsg))
+//@   loop 1 step failed-peer-forgotten: received(p.newPeerError) > iter(received(p.newPeerError)) ==> !(lastrecv(p.newPeerError) in p.peers)
+//@   loop 1 step blacklisted-stream-refused: received(p.newPeerStream) > iter(received(p.newPeerStream)) && blk[lastret(Conn.RemotePeer)] ==>
+//@        calls((*PubSub).getHelloPacket) == iter(calls((*PubSub).getHelloPacket)) && !(lastret(Conn.RemotePeer) in p.peers) &&
+//@        calls(PubSubRouter.OnNewOutboundStream) == iter(calls(PubSubRouter.OnNewOutboundStream))
+//@   loop 1 step hello-first: received(p.newPeerStream) > iter(received(p.newPeerStream)) && !blk[lastret(Conn.RemotePeer)] && iter(p.peers) != nil && lastret(Conn.RemotePeer) in p.peers ==>
+//@        calls((*PubSub).getHelloPacket) == iter(calls((*PubSub).getHelloPacket)) + 1 && calls(PubSubRouter.OnNewOutboundStream) == iter(calls(PubSubRouter.OnNewOutboundStream)) + 1 &&
+//@        lastarg(PubSubRouter.OnNewOutboundStream, 3) == lastret((*PubSub).getHelloPacket)
+//@   loop 1 step blacklist-only-by-request: received(p.blacklistPeer) == iter(received(p.blacklistPeer)) ==> calls(Blacklist.Add) == iter(calls(Blacklist.Add))
+
+// ---- remote interest bookkeeping (p.topics) ----
+//
+// Distinct topics own distinct, non-nil, non-empty peer maps (an emptied map is removed, so
+// GetTopics/ListPeers and the fanout logic never see a topic without peers).
+//@ spec fn topicsRep(p *PubSub) bool = p.topics != nil &&
+//@      (forall t string :: t in p.topics ==> p.topics[t] != nil && allocated(p.topics[t]) && len(p.topics[t]) > 0) &&
+//@      (forall t1 string, t2 string :: t1 in p.topics && t2 in p.topics && t1 != t2 ==> p.topics[t1] != p.topics[t2])
+
+// clearPeerFromTopicsState: the peer is in no topic afterwards, every other (topic, peer) pair is
+// untouched, one Leave notification per topic it was in.
+//@ func (*PubSub).clearPeerFromTopicsState
+//@   property C05 C13
+//@   requires rep: topicsRep(p)
+//@   noframe
+//@   loop 1 invariant cleared: forall t string :: $visited[t] ==> !has(p.topics, t, pid)
+//@   loop 1 invariant others: forall t string, q string :: q != pid ==> has(p.topics, t, q) == old(has(p.topics, t, q))
+//@   loop 1 invariant not-added: forall t string :: has(p.topics, t, pid) ==> old(has(p.topics, t, pid))
+//@   loop 1 invariant rep: topicsRep(p) && (forall t string :: t in p.topics ==> old(t in p.topics) && p.topics[t] == old(p.topics[t]))
+//@   loop 1 invariant range: forall t string :: t in p.topics ==> $start[t]
+//@   ensures gone: forall t string :: !has(p.topics, t, pid)
+//@   ensures others: forall t string, q string :: q != pid ==> has(p.topics, t, q) == old(has(p.topics, t, q))
+//@   ensures rep: topicsRep(p)
+
+//@ func (*PubSub).onClosedIncomingStream
+//@   property C13
+//@   requires rep: topicsRep(p)
+//@   noframe
+//@   ensures topics-cleared: calls((*PubSub).clearPeerFromTopicsState) == old(calls((*PubSub).clearPeerFromTopicsState)) + 1 && lastarg((*PubSub).clearPeerFromTopicsState, 1) == pid
+//@   ensures router-told: calls(PubSubRouter.OnClosedIncomingStream) == old(calls(PubSubRouter.OnClosedIncomingStream)) + 1 &&
+//@        lastarg(PubSubRouter.OnClosedIncomingStream, 1) == pid && lastarg(PubSubRouter.OnClosedIncomingStream, 2) == proto
+
+// handleDeadPeers: every peer reported dead that still has an outbound queue loses it: the
+// queue is closed, the peer's topic state is cleared and the router is told, exactly once each;
+// a peer that is still connected gets a NEW queue (never the closed one); peers not reported
+// dead keep their queues.
+//@ func (*PubSub).handleDeadPeers
+//@   property C13
+//@   requires rep: topicsRep(p) && p.peers != nil
+//@   noframe
+//@   loop 1 invariant rep: topicsRep(p) && p.peers != nil && p.peers == old(p.peers)
+//@   loop 1 invariant untouched: forall q string :: !$visited[q] ==> (q in p.peers) == old(q in p.peers) && p.peers[q] == old(p.peers[q])
+//@   loop 1 invariant replaced: forall q string :: $visited[q] && q in p.peers ==> old(q in p.peers) && fresh(p.peers[q])
+//@   loop 1 invariant cleared: forall q string, t string :: $visited[q] && old(q in p.peers) ==> !has(p.topics, t, q)
+//@   loop 1 step evicted: forall q string :: q == pid && iter(q in p.peers) ==>
+//@        calls((*rpcQueue).Close) == iter(calls((*rpcQueue).Close)) + 1 && lastarg((*rpcQueue).Close, 0) == iter(p.peers[q]) &&
+//@        calls((*PubSub).clearPeerFromTopicsState) == iter(calls((*PubSub).clearPeerFromTopicsState)) + 1 && lastarg((*PubSub).clearPeerFromTopicsState, 1) == q &&
+//@        calls(PubSubRouter.OnClosedOutboundStream) == iter(calls(PubSubRouter.OnClosedOutboundStream)) + 1 && lastarg(PubSubRouter.OnClosedOutboundStream, 1) == q
+//@   loop 1 step unknown-peer-ignored: forall q string :: q == pid && !iter(q in p.peers) ==>
+//@        calls((*rpcQueue).Close) == iter(calls((*rpcQueue).Close)) && calls(PubSubRouter.OnClosedOutboundStream) == iter(calls(PubSubRouter.OnClosedOutboundStream)) && !(q in p.peers)
+//@   ensures no-stale-queue: forall q string :: q in p.peers ==> old(q in p.peers) && (p.peers[q] == old(p.peers[q]) || fresh(p.peers[q]))
